@@ -275,13 +275,14 @@ func splitNode[T any](n *node[T], pos int) (*node[T], error) {
 	if p == nil {
 		panic("节点必须要有一个有效的父节点，才能进行拆分")
 	}
-	p.children = removeNodes(p.children, n.segment.Value) // 先从父节点中删除老的 n
-
-	segs, err := n.segment.Split(n.root.interceptors, pos)
+	segs, err := n.segment.Split(n.root.interceptors, pos) // 先拆分，出错时不能改变 p.children。
 	if err != nil {
 		return nil, err
 	}
-	ret := p.newChild(segs[0])
+
+	// 新节点取代 n 在 p.children 中的位置，同等优先级的兄弟节点之间的顺序不能因为拆分而改变。
+	ret := &node[T]{root: n.root, parent: p, segment: segs[0], pattern: p.pattern + segs[0].Value}
+	p.children[slices.Index(p.children, n)] = ret
 	n.segment = segs[1] // 保留 n 本身，OPTIONS 和 405 的处理方法引用的是该实例。
 	n.parent = ret
 	ret.children = append(ret.children, n)
